@@ -49,6 +49,9 @@ func (o *ObjectRangeRequest) Range(size int64) (*ObjectRange, error) {
 		// If no start is specified, end specifies the range start relative
 		// to the end of the file.
 		end := o.End
+		if end < 0 {
+			return nil, ErrInvalidRange
+		}
 		start = size - end
 		length = size - start
 	}
@@ -57,7 +60,9 @@ func (o *ObjectRangeRequest) Range(size int64) (*ObjectRange, error) {
 		return nil, ErrInvalidRange
 	}
 
-	if start+length > size {
+	// Compared this way round because start+length overflows for an end
+	// close to the largest int64:
+	if length > size-start {
 		return &ObjectRange{Start: start, Length: size - start}, nil
 	}
 
